@@ -635,8 +635,18 @@ Fixpoint last_result (rs : list Result) : option Result :=
   | _ :: r => last_result r
   end.
 
-(* outcome of one append: error class, result, the proposals issued (events of each) *)
-Record AppendOut := mkAppendOut { ao_err : Err; ao_result : option Result; ao_proposals : list (list Event) }.
+(* a proposal as the harness' proposer records it: its events, each with the
+   FSM's result (None: the proposal was rejected, nothing applied) *)
+Definition Proposal := list (Event * option Result).
+
+Definition with_results (evs : list Event) (rs : option (list Result)) : Proposal :=
+  match rs with
+  | Some rs => combine evs (map Some rs)
+  | None => map (fun e => (e, None)) evs
+  end.
+
+(* outcome of one append: error class, result, the proposals issued *)
+Record AppendOut := mkAppendOut { ao_err : Err; ao_result : option Result; ao_proposals : list Proposal }.
 
 Definition nil_b {A} (l : list A) : bool := match l with [] => true | _ => false end.
 
@@ -649,10 +659,10 @@ Definition appendMessageEventFinishLocal (st : NodeSt) (e : Event) (fail : bool)
   match propose_events st events fail with
   | (Some rs, st') =>
     match last_result rs with
-    | Some r => (mkAppendOut ENone (Some r) [events], set_cache st' (removeObserved (n_cache st') e))
-    | None => (mkAppendOut EOther None [events], st')
+    | Some r => (mkAppendOut ENone (Some r) [with_results events (Some rs)], set_cache st' (removeObserved (n_cache st') e))
+    | None => (mkAppendOut EOther None [with_results events (Some rs)], st')
     end
-  | (None, st') => (mkAppendOut EOther None [events], st')
+  | (None, st') => (mkAppendOut EOther None [with_results events None], st')
   end.
 
 (* Node.appendMessageEventLocal *)
@@ -671,15 +681,18 @@ Definition appendMessageEventLocal (st : NodeSt) (e : Event) (fail : bool) : App
       match propose_events st [e'] fail with
       | (Some rs, st') =>
         match last_result rs with
-        | Some r => (mkAppendOut ENone (Some r) [[e']], set_cache st' (markTerminalPersisted (n_cache st') e' r))
-        | None => (mkAppendOut EOther None [[e']], st')
+        | Some r => (mkAppendOut ENone (Some r) [with_results [e'] (Some rs)],
+                     set_cache st' (markTerminalPersisted (n_cache st') e' r))
+        | None => (mkAppendOut EOther None [with_results [e'] (Some rs)], st')
         end
-      | (None, st') => (mkAppendOut EOther None [[e']], st')
+      | (None, st') => (mkAppendOut EOther None [with_results [e'] None], st')
       end
     else
+      (* unreachable after normalization (every admitted type is handled above); kept as in the code *)
       match propose_events st [e] fail with
-      | (Some rs, st') => (mkAppendOut ENone (last_result rs) [[e]], st')
-      | (None, st') => (mkAppendOut EOther None [[e]], st')
+      | (Some rs, st') => (mkAppendOut (match last_result rs with Some _ => ENone | None => EOther end)
+                                       (last_result rs) [with_results [e] (Some rs)], st')
+      | (None, st') => (mkAppendOut EOther None [with_results [e] None], st')
       end
   end.
 
